@@ -1,4 +1,5 @@
-// Package mcatomic mirrors the parts of sync/atomic used by instrumented code.
+// Package mcatomic mirrors sync/atomic for instrumented code: every operation is a
+// visible operation of the scheduler (and an acquire+release for the race oracle).
 package mcatomic
 
 import (
@@ -7,34 +8,124 @@ import (
 	"verif/mc"
 )
 
-func pt(kind string, p unsafe.Pointer, do func()) {
+func pt(kind string, p unsafe.Pointer, ro bool, do func()) {
 	if mc.Killing() {
 		do()
 		return
 	}
-	mc.Point(&mc.Op{Kind: kind, Obj: p, Alts: func() int { return 1 }, Do: func(int) {
+	mc.Point(&mc.Op{Kind: kind, Obj: p, RO: ro, Alts: func() int { return 1 }, Do: func(int) {
 		mc.RaceAcquire(p)
 		do()
 		mc.RaceRelease(p)
 	}})
 }
 
-func LoadInt32(p *int32) (v int32)   { pt("atomic.Load", unsafe.Pointer(p), func() { v = *p }); return }
-func StoreInt32(p *int32, v int32)   { pt("atomic.Store", unsafe.Pointer(p), func() { *p = v }) }
-func AddInt32(p *int32, d int32) (v int32) {
-	pt("atomic.Add", unsafe.Pointer(p), func() { *p += d; v = *p })
+type integer interface {
+	~int32 | ~int64 | ~uint32 | ~uint64 | ~uintptr
+}
+
+func load[T any](p *T) (v T) { pt("atomic.Load", unsafe.Pointer(p), true, func() { v = *p }); return }
+func store[T any](p *T, v T) { pt("atomic.Store", unsafe.Pointer(p), false, func() { *p = v }) }
+func swap[T any](p *T, n T) (o T) {
+	pt("atomic.Swap", unsafe.Pointer(p), false, func() { o = *p; *p = n })
 	return
 }
-func LoadUint64(p *uint64) (v uint64) { pt("atomic.Load", unsafe.Pointer(p), func() { v = *p }); return }
-func StoreUint64(p *uint64, v uint64) { pt("atomic.Store", unsafe.Pointer(p), func() { *p = v }) }
-func AddUint64(p *uint64, d uint64) (v uint64) {
-	pt("atomic.Add", unsafe.Pointer(p), func() { *p += d; v = *p })
+func add[T integer](p *T, d T) (v T) {
+	pt("atomic.Add", unsafe.Pointer(p), false, func() { *p += d; v = *p })
 	return
 }
-func CompareAndSwapInt32(p *int32, o, n int32) (ok bool) {
-	pt("atomic.CAS", unsafe.Pointer(p), func() {
+func cas[T comparable](p *T, o, n T) (ok bool) {
+	pt("atomic.CAS", unsafe.Pointer(p), false, func() {
 		if *p == o {
 			*p, ok = n, true
+		}
+	})
+	return
+}
+
+func LoadInt32(p *int32) int32                                          { return load(p) }
+func LoadInt64(p *int64) int64                                          { return load(p) }
+func LoadUint32(p *uint32) uint32                                       { return load(p) }
+func LoadUint64(p *uint64) uint64                                       { return load(p) }
+func LoadUintptr(p *uintptr) uintptr                                    { return load(p) }
+func LoadPointer(p *unsafe.Pointer) unsafe.Pointer                      { return load(p) }
+func StoreInt32(p *int32, v int32)                                      { store(p, v) }
+func StoreInt64(p *int64, v int64)                                      { store(p, v) }
+func StoreUint32(p *uint32, v uint32)                                   { store(p, v) }
+func StoreUint64(p *uint64, v uint64)                                   { store(p, v) }
+func StoreUintptr(p *uintptr, v uintptr)                                { store(p, v) }
+func StorePointer(p *unsafe.Pointer, v unsafe.Pointer)                  { store(p, v) }
+func AddInt32(p *int32, d int32) int32                                  { return add(p, d) }
+func AddInt64(p *int64, d int64) int64                                  { return add(p, d) }
+func AddUint32(p *uint32, d uint32) uint32                              { return add(p, d) }
+func AddUint64(p *uint64, d uint64) uint64                              { return add(p, d) }
+func AddUintptr(p *uintptr, d uintptr) uintptr                          { return add(p, d) }
+func SwapInt32(p *int32, v int32) int32                                 { return swap(p, v) }
+func SwapInt64(p *int64, v int64) int64                                 { return swap(p, v) }
+func SwapUint32(p *uint32, v uint32) uint32                             { return swap(p, v) }
+func SwapUint64(p *uint64, v uint64) uint64                             { return swap(p, v) }
+func SwapPointer(p *unsafe.Pointer, v unsafe.Pointer) unsafe.Pointer    { return swap(p, v) }
+func CompareAndSwapInt32(p *int32, o, n int32) bool                     { return cas(p, o, n) }
+func CompareAndSwapInt64(p *int64, o, n int64) bool                     { return cas(p, o, n) }
+func CompareAndSwapUint32(p *uint32, o, n uint32) bool                  { return cas(p, o, n) }
+func CompareAndSwapUint64(p *uint64, o, n uint64) bool                  { return cas(p, o, n) }
+func CompareAndSwapPointer(p *unsafe.Pointer, o, n unsafe.Pointer) bool { return cas(p, o, n) }
+
+type Int32 struct{ v int32 }
+
+func (x *Int32) Load() int32                    { return load(&x.v) }
+func (x *Int32) Store(v int32)                  { store(&x.v, v) }
+func (x *Int32) Add(d int32) int32              { return add(&x.v, d) }
+func (x *Int32) Swap(v int32) int32             { return swap(&x.v, v) }
+func (x *Int32) CompareAndSwap(o, n int32) bool { return cas(&x.v, o, n) }
+
+type Int64 struct{ v int64 }
+
+func (x *Int64) Load() int64                    { return load(&x.v) }
+func (x *Int64) Store(v int64)                  { store(&x.v, v) }
+func (x *Int64) Add(d int64) int64              { return add(&x.v, d) }
+func (x *Int64) Swap(v int64) int64             { return swap(&x.v, v) }
+func (x *Int64) CompareAndSwap(o, n int64) bool { return cas(&x.v, o, n) }
+
+type Uint32 struct{ v uint32 }
+
+func (x *Uint32) Load() uint32                    { return load(&x.v) }
+func (x *Uint32) Store(v uint32)                  { store(&x.v, v) }
+func (x *Uint32) Add(d uint32) uint32             { return add(&x.v, d) }
+func (x *Uint32) Swap(v uint32) uint32            { return swap(&x.v, v) }
+func (x *Uint32) CompareAndSwap(o, n uint32) bool { return cas(&x.v, o, n) }
+
+type Uint64 struct{ v uint64 }
+
+func (x *Uint64) Load() uint64                    { return load(&x.v) }
+func (x *Uint64) Store(v uint64)                  { store(&x.v, v) }
+func (x *Uint64) Add(d uint64) uint64             { return add(&x.v, d) }
+func (x *Uint64) Swap(v uint64) uint64            { return swap(&x.v, v) }
+func (x *Uint64) CompareAndSwap(o, n uint64) bool { return cas(&x.v, o, n) }
+
+type Bool struct{ v bool }
+
+func (x *Bool) Load() bool                    { return load(&x.v) }
+func (x *Bool) Store(v bool)                  { store(&x.v, v) }
+func (x *Bool) Swap(v bool) bool              { return swap(&x.v, v) }
+func (x *Bool) CompareAndSwap(o, n bool) bool { return cas(&x.v, o, n) }
+
+type Pointer[T any] struct{ v *T }
+
+func (x *Pointer[T]) Load() *T                    { return load(&x.v) }
+func (x *Pointer[T]) Store(v *T)                  { store(&x.v, v) }
+func (x *Pointer[T]) Swap(v *T) *T                { return swap(&x.v, v) }
+func (x *Pointer[T]) CompareAndSwap(o, n *T) bool { return cas(&x.v, o, n) }
+
+type Value struct{ v any }
+
+func (x *Value) Load() any      { return load(&x.v) }
+func (x *Value) Store(v any)    { store(&x.v, v) }
+func (x *Value) Swap(v any) any { return swap(&x.v, v) }
+func (x *Value) CompareAndSwap(o, n any) (ok bool) {
+	pt("atomic.CAS", unsafe.Pointer(&x.v), false, func() {
+		if x.v == o {
+			x.v, ok = n, true
 		}
 	})
 	return
